@@ -11,6 +11,9 @@ CLAIMED = {
    text='Proof that every method of security.Count preserves count < 2^24 and realises the abstract overflow||sqn view (increment mod 2^24 with carry, setters independent, reads do not change the value) from every one of the 2^24 states; histories by induction on the invariant.',
    note='Induction over histories is a paper step over the per-method obligations (unexported field, no other writer). go/ssa lowering and SMT solvers trusted.'),
 }
+CLAIMED['C14'] = dict(design='8/C14', technique='deductive verification: safety-only contracts (requires true), every panic site an obligation over symbolic inputs of symbolic length, loop invariants and variants as contracts; z3/cvc5',
+   text='Proof that none of the 45 listed conversion helpers can panic (index, slice bounds, nil dereference, division, make, library preconditions) or loop forever for any byte string or text input: thin contracts with requires true (plus Len == len(Buffer) where a decoded element struct is taken), loop invariants and variants discharged for all lengths.',
+   note='Trusted models of hex, strconv, strings, fmt.Sprintf, bytes.Buffer/Reader, binary.Read, time, logrus (DESIGN section 5). Slices of composite elements have unknown content (only their length is tracked). Non-nil receiver / pointer-to-struct parameters are assumed where the byte string is a field of a struct.')
 REASONS = {}
 checks = []
 for p in props:
